@@ -182,8 +182,14 @@ def _gen_template(r, recs):
                 pieces[-1][1] += lit
             else:
                 pieces.append(["lit", lit])
-        elif w < 8:
+        elif w < 7:
             pieces.append(["field", r.choice(names)])
+        elif w < 8:
+            # a replacement field with conversion / format spec / nested spec / attribute / index (str.format syntax)
+            nm = r.choice(names)
+            suffix = r.choice(["!r", "!s", "!s:>12", "!s:<9", "!r:^30", "!s:.3", "!s:>{%s!s:.1}" % r.choice(names),
+                               ".__class__.__name__", "!s:{nosuch}", ".__doc__!s:.4", "[0]", ".real", "!a"])
+            pieces.append(["fmt", [nm, suffix]])
         else:
             pieces.append(["field", r.choice(["missing", "nope_1", "a b", "1a", "-1", "x)", "é"])])
     return pieces
@@ -198,6 +204,8 @@ def template_text(pieces):
     for k, s in pieces:
         if k == "lit":
             out.append(s.replace("{", "{{").replace("}", "}}"))
+        elif k == "fmt":
+            out.append("{" + s[0] + s[1] + "}")
         else:
             out.append("{" + s + "}")
     return "".join(out)
@@ -275,6 +283,8 @@ def gen_cases(rng, tier):
             rows[r.below(nrow)] = rows[0][: ncol - 1]      # a short row leaves the last field unset
         if r.chance(10):
             rows[r.below(nrow)].append("surplus")          # a long row: extra cell dropped
+        if r.chance(20):
+            rows[r.randint(1, nrow - 1)] = [""] * ncol     # a record whose selected fields are all empty: a row `,,`
         cases.append({"kind": "read", "d": r.choice(DELIMS), "header": header, "rows": rows})
     return cases
 
@@ -442,6 +452,25 @@ def run_real(case):
                                            for n in rec.__slots__ if used is not None and n in used]} for rec in recs]
             except Exception as e:
                 obs["str_error"] = _err(e)
+            if case.get("pieces") is not None and any(kind == "fmt" for kind, _ in case["pieces"]):
+                # reference for compound replacement fields: Python's own formatter, one field at a time, over the
+                # slot values read with getattr (not through _asdict); None = str.format itself refuses it
+                class _Keep(dict):
+                    def __missing__(self, key):
+                        return "{" + key + "}"
+                fmt = []
+                for rec in recs:
+                    slots = _Keep((n, getattr(rec, n)) for n in rec.__slots__)
+                    row = []
+                    for kind, s2 in case["pieces"]:
+                        if kind != "fmt":
+                            continue
+                        try:
+                            row.append(V.enc_str(("{" + s2[0] + s2[1] + "}").format_map(slots)))
+                        except Exception:
+                            row.append(None)
+                    fmt.append(row)
+                obs["fmt"] = fmt
             outs = []
             try:
                 w = TextWriter(path, format_spec=spec)
@@ -601,6 +630,8 @@ def oracle(case, obs):
         return None
     if k == "text":
         malformed = case.get("raw") is not None
+        if any(x is None for row in obs.get("fmt", []) for x in row):
+            malformed = True     # str.format itself refuses one of the replacement fields for one of the records
         if "write" in obs:
             if malformed:
                 return None      # a malformed / unsupported template may be rejected with an error
@@ -609,15 +640,16 @@ def oracle(case, obs):
             return f"repr()/format() of a field value raised {obs['str_error']['error']}: {obs['str_error']['msg']}"
         if malformed:
             return None
-        for spec, view, out in zip(case["recs"], obs["view"], obs["outs"]):
+        for ri, (spec, view, out) in enumerate(zip(case["recs"], obs["view"], obs["outs"])):
             out = V.dec_str(out)
             if case.get("pieces") is None:
                 want = "<" + V.dec_str(view["name"]) + " " + " ".join(
                     V.dec_str(n) + "=" + V.dec_str(rp) for n, rp in view["items"]) + ">\n"
             else:
                 lk = {V.dec_str(n): V.dec_str(v) for n, v in view["lookup"]}
-                want = "".join(_unescape(s) if kind == "lit" else lk.get(s, "{" + s + "}")
-                               for kind, s in case["pieces"]) + "\n"
+                fm = iter(obs["fmt"][ri]) if "fmt" in obs else iter(())
+                want = "".join(_unescape(s) if kind == "lit" else V.dec_str(next(fm)) if kind == "fmt"
+                               else lk.get(s, "{" + s + "}") for kind, s in case["pieces"]) + "\n"
             if out != want:
                 return "text writer output differs from repr / the template with known fields substituted"
         if len(obs["outs"]) != len(case["recs"]):
